@@ -422,7 +422,14 @@ Lemma cancel_tok w c : tok_inv w [] -> tok_inv (fst (do_cancel w c)) [].
 Proof.
   intros H. unfold do_cancel. destruct (get_conn w c) as [k|]; [|exact H].
   destruct (k_fut k); try exact H. cbn [fst].
-  eapply tok_inv_mono; [exact H| |intros c0; rewrite tokc_upd_conn; lia]. apply srvs_upd_conn, ks_set_fut, ks_kill.
+  eapply tok_inv_mono; [exact H| |].
+  - unfold send_abandon_rst. destruct (S.lo (k_sys k));
+      [rewrite (f_srv _ _ (frame_loop_send _ _ _))|destruct (k_dhost k); [rewrite (f_srv _ _ (frame_link_send _ _ _ _))|]];
+      apply srvs_upd_conn, ks_set_fut, ks_kill.
+  - intros c0. unfold send_abandon_rst. destruct (S.lo (k_sys k)).
+    + eapply Nat.le_trans; [apply Nat.add_le_mono_l, tokc_loop_send|]. rewrite cnt_syn_seg, tokc_upd_conn. lia.
+    + destruct (k_dhost k); [|rewrite tokc_upd_conn; lia].
+      eapply Nat.le_trans; [apply Nat.add_le_mono_l, tokc_link_send|]. rewrite cnt_syn_seg, tokc_upd_conn. lia.
 Qed.
 
 Lemma stream_op_tok w h sid e : tok_inv w [] -> tok_inv (fst (stream_op w h sid e)) [].
@@ -682,6 +689,13 @@ Qed.
 Lemma acc_fold_syn_gone (l : list wmsg) : forall w1, w_accepts (fold_left syn_gone l w1) = w_accepts w1.
 Proof. induction l as [|m l IH]; intros w1; cbn [fold_left]; [reflexivity|]. rewrite IH. apply acc_syn_gone. Qed.
 
+Lemma acc_cancel w c : w_accepts (fst (do_cancel w c)) = w_accepts w.
+Proof.
+  unfold do_cancel. destruct (get_conn w c) as [k|]; [|reflexivity]. destruct (k_fut k); try reflexivity.
+  cbn [fst]. unfold send_abandon_rst. destruct (S.lo (k_sys k)); [rewrite (f_acc _ _ (frame_loop_send _ _ _)); reflexivity|].
+  destruct (k_dhost k); [rewrite (f_acc _ _ (frame_link_send _ _ _ _))|]; reflexivity.
+Qed.
+
 Lemma acc_step_other w e :
   (forall h lid sid, e <> Accept h lid sid) -> w_accepts (fst (step w e)) = w_accepts w.
 Proof.
@@ -699,10 +713,10 @@ Proof.
     destruct (get_conn w3 _) as [k3|]; [|exact E]. destruct (k_syn k3); cbn [fst]; exact E.
   - unfold do_poll. destruct (get_conn w c) as [k|]; [|reflexivity]. destruct (k_fut k); try reflexivity.
     destruct (k_syn k); reflexivity.
-  - unfold do_poll, do_cancel. destruct (get_conn w c) as [k|] eqn:Hc; [|reflexivity].
+  - unfold do_poll. destruct (get_conn w c) as [k|] eqn:Hc; [|reflexivity].
     destruct (k_fut k) eqn:Hf; try reflexivity. destruct (k_syn k) eqn:Hs; cbn [fst snd]; try reflexivity;
-      rewrite Hc, Hf; reflexivity.
-  - unfold do_cancel. destruct (get_conn w c) as [k|]; [|reflexivity]. destruct (k_fut k); reflexivity.
+      apply acc_cancel.
+  - apply acc_cancel.
   - exfalso. eapply Hne. reflexivity.
   - unfold do_drop_listener. destruct (get_host w h) as [hs|]; [|reflexivity].
     destruct (find_lid hs lid) as [[port b]|]; [|reflexivity]. cbn [fst].
